@@ -213,6 +213,8 @@ func runC14(s *spec.Spec, logPath string) {
 				}
 			}
 			probesC["bad_key_queries"]++
+		case st.Forgot != 0:
+			c.forgotLabel(st.Forgot)
 		case st.Fix != nil:
 			c.applyFix(st.Fix.Names, st.Fix.Data)
 		case len(st.Acts) > 0:
@@ -298,6 +300,11 @@ func (c *c14) freeDay(y int) string {
 	return fmt.Sprintf("%04d-07-15", y)
 }
 
+type againState struct {
+	present bool
+	rec     hrec
+}
+
 func (c *c14) resolve(st spec.HStep) ([]string, string) {
 	var names []string
 	nNames := len(c.m.names)
@@ -318,6 +325,7 @@ func (c *c14) resolve(st spec.HStep) ([]string, string) {
 	}
 	days := c.m.days()
 	used := map[string]bool{}
+	again := map[string]againState{} // days that existed before this call and that this string has replaced or removed so far
 	var data strings.Builder
 	seg := func(day string, name int, work bool, target string) {
 		w := "1"
@@ -459,6 +467,39 @@ func (c *c14) resolve(st spec.HStep) ([]string, string) {
 			if n > 31 {
 				probesC["fix_add_block_longer_than_31_days"]++
 			}
+		case "same_day_again":
+			// a second segment for a day this very string has already replaced or removed (an upstream patch
+			// concatenated with a local override): segments apply in order, the last one decides
+			var cands []string
+			for d := range again {
+				cands = append(cands, d)
+			}
+			if len(cands) == 0 {
+				continue
+			}
+			sort.Strings(cands)
+			d := cands[c.rnd()%uint64(len(cands))]
+			st := again[d]
+			if st.present {
+				if c.rnd()%2 == 0 {
+					data.WriteString(undash(d) + "~" + "000000000")
+					st.present = false
+				} else {
+					st.rec.work = !st.rec.work
+					if c.rnd()%2 == 0 {
+						st.rec.name = c.pickName(nNames)
+					}
+					seg(d, st.rec.name, st.rec.work, st.rec.target)
+				}
+				again[d] = st
+			} else {
+				// re-added: the library collects added records and puts them in at the end of the call, so a further
+				// segment for this day would be "an absent day named twice", which the statement does not define
+				seg(d, st.rec.name, c.rnd()%2 == 0, st.rec.target)
+				delete(again, d)
+			}
+			probesC["fix_names_same_day_twice"]++
+			continue
 		case "replace_flag", "replace_name", "replace_target":
 			if len(days) == 0 {
 				continue
@@ -485,6 +526,7 @@ func (c *c14) resolve(st spec.HStep) ([]string, string) {
 				}
 			}
 			seg(day, r.name, r.work, r.target)
+			again[day] = againState{true, r}
 			probesC["fix_replace"]++
 		case "remove":
 			if len(days) == 0 {
@@ -495,6 +537,7 @@ func (c *c14) resolve(st spec.HStep) ([]string, string) {
 				continue
 			}
 			data.WriteString(undash(day) + "~" + "000000000")
+			again[day] = againState{false, c.m.recs[day]}
 			probesC["fix_remove"]++
 		case "remove_absent":
 			day = c.freeDay(c.firstY + int(c.rnd()%uint64(c.lastY-c.firstY+3)))
@@ -507,6 +550,33 @@ func (c *c14) resolve(st spec.HStep) ([]string, string) {
 		used[day] = true
 	}
 	return names, data.String()
+}
+
+// forgotLabel: a fix-up adds a record for a NEW festival but the caller forgets to pass the extended name list (the
+// record's label index is one past the names in use). A working-day walk across that day panics - as it does in the
+// library as shipped - and the caller recovers; then the caller repairs the table by passing the extended names with
+// an empty fix-up string. After that everything must be as the model says, and in particular the repairing Fix must
+// return (a panic that left a lock held would block it).
+func (c *c14) forgotLabel(pick uint64) {
+	saved := c.rng
+	c.rng = pick
+	defer func() { c.rng = saved }()
+	idx := len(c.m.names)
+	if idx > 40 {
+		return
+	}
+	day := c.freeDay(c.lastY + 1)
+	data := undash(day) + string(rune('0'+idx)) + "1" + undash(day)
+	c.applyFix(nil, data)
+	start := dayTime(day).AddDate(0, 0, -2-int(c.rnd()%3))
+	setCall("next " + start.Format("2006-01-02"))
+	if p := safe(func() { calendar.NewSolarFromYmd(start.Year(), int(start.Month()), start.Day()).Next(5, true) }); p != nil {
+		probesC["walk_over_unlabelled_record_panicked_and_recovered"]++
+	}
+	setCall("")
+	names := append(append([]string{}, c.m.names...), fmt.Sprintf("补名%d", idx))
+	c.applyFix(names, "")
+	probesC["forgotten_label_repaired"]++
 }
 
 // applyFix calls the library and applies the same fix-up to the model by the
